@@ -1716,3 +1716,92 @@ impl Prop for C04Two {
         out
     }
 }
+
+// ------------------------------------------------------------------------------------------------
+// C04: planned counts of a MultiDispatcher batch around the powers of two
+
+pub struct C04BigPlan;
+
+#[derive(Clone, Debug, Serialize, Deserialize)]
+pub struct C04BigPlanCase {
+    /// planned = 2^k + delta - 1, k in 1..=16, delta in 0..=2
+    pub k: u8,
+    pub delta: u8,
+    pub inner: u8,
+    pub sequential: bool,
+}
+
+impl Prop for C04BigPlan {
+    type Case = C04BigPlanCase;
+    fn name(&self) -> &'static str {
+        "c04-planned-counts"
+    }
+    fn property(&self) -> &'static str {
+        "C04"
+    }
+    fn rule(&self) -> &'static str {
+        "one MultiDispatcher batch with 1..3 inner systems whose controller plans 2^k - 1, 2^k or 2^k + 1 inner dispatches (k = 1..16: the values around every width a counter might be narrowed to), dispatched once with dispatch or dispatch_seq on a one-thread pool; oracle: every inner system has run exactly the planned number of times; non-trivial = planned >= 255; distinct = case hash"
+    }
+    fn stream_len(&self) -> usize {
+        8
+    }
+    fn max_shrink_iters(&self) -> u32 {
+        20
+    }
+    fn gen(&self, src: &mut Src) -> C04BigPlanCase {
+        // small exponents are cheap and frequent, the large ones rarer
+        let k = if src.chance(12, 16) { 1 + src.pick(10) } else { 11 + src.pick(6) } as u8;
+        C04BigPlanCase {
+            k,
+            delta: src.pick(3) as u8,
+            inner: 1 + src.pick(3) as u8,
+            sequential: src.chance(8, 16),
+        }
+    }
+    fn check(&self, case: &C04BigPlanCase, lane: usize, st: &mut Stats) -> Result<(), Fail> {
+        use crate::plan::{Ctl, Op};
+        let k = case.k.clamp(1, 16) as u32;
+        let planned = (1u32 << k) + case.delta.min(2) as u32 - 1;
+        let inner: Vec<Op> = (0..case.inner.clamp(1, 3))
+            .map(|i| Op::Sys {
+                name: format!("i{}", i),
+                deps: vec![],
+                reads: vec![],
+                writes: vec![],
+                rt: 3,
+                kind: Kind::Dyn,
+                extra_deps: vec![],
+            })
+            .collect();
+        let plan = vec![Op::Batch {
+            name: "batch".into(),
+            deps: vec![],
+            decl: 0,
+            ctl: Ctl::Multi { planned },
+            rt: 3,
+            inner,
+            extra_deps: vec![],
+        }];
+        let mut b = build_plan(&plan, pool(lane, 1), &BuildOpts::default())
+            .map_err(|e| Fail::keyed("build-or-identify", e))?;
+        let flat = b.flat.clone();
+        let world = fresh_world();
+        b.ctx.reset_counters();
+        // the event log would grow with every inner dispatch
+        b.ctx.log_on.store(false, SeqCst);
+        let entry = if case.sequential { Entry::SeqTl } else { Entry::Dispatch };
+        let out = run_call(&mut b, &world, entry, None, Duration::from_millis(60_000));
+        b.ctx.log_on.store(true, SeqCst);
+        if let Some(p) = &out.panic {
+            return Err(Fail::keyed("panic", format!("dispatch panicked: {}", describe_panic(p))));
+        }
+        check_counts(&flat, &b.ctx.runs(), &expected_runs(&flat, 1, 1)).map_err(|f| {
+            Fail::new(format!("controller planned {} inner dispatches: {}", planned, f.msg))
+        })?;
+        st.class(&format!("planned_2^{}", k));
+        if planned >= 255 {
+            st.nontrivial(case, || json!({"planned": planned}));
+        }
+        Ok(())
+    }
+}
